@@ -631,6 +631,13 @@ func analyseMarshal(p *Program, kf *KindFacts) {
 				if ord, src := encodedOrder(srefElems(res)); ord != "" && strings.HasPrefix(src, "v") {
 					kf.MOrder[ord] = true
 					sigs[fmt.Sprintf("u%d%s", wd*8, ord)] = true
+				} else if lay, why := packedCivilLayout(srefElems(res), pa); lay != "" {
+					// the digits packed arithmetically, two per byte, from the civil fields of the stored instant (or the
+					// decimal fields of the value): the bytes bcd.Encode yields for the text of that layout
+					sigs["bcd:"+lay] = true
+					if why != "" {
+						kf.SigDetail += "; " + why
+					}
 				} else {
 					sigs["?sref"] = true
 				}
@@ -689,6 +696,159 @@ func analyseMarshal(p *Program, kf *KindFacts) {
 			kf.EncZeroImg = "0" + kf.EncZeroImg
 		}
 	}
+}
+
+// bcdPairOf: t is the byte (x/10)<<4 | x%10 (or *16, +): the two decimal digits of x, one per nibble. Returns x.
+func bcdPairOf(t *Term) *Term {
+	for t != nil && t.Op == "conv" && len(t.Args) == 1 {
+		t = t.Args[0]
+	}
+	if t == nil || t.Op != "bin" || (t.Name != "|" && t.Name != "+") || len(t.Args) != 2 {
+		return nil
+	}
+	strip := func(x *Term) *Term {
+		for x != nil && x.Op == "conv" && len(x.Args) == 1 {
+			x = x.Args[0]
+		}
+		return x
+	}
+	divmod := func(x *Term, op string, k int64) *Term {
+		x = strip(x)
+		if x == nil || x.Op != "bin" || x.Name != op || len(x.Args) != 2 {
+			return nil
+		}
+		if c, ok := x.Args[1].Int64(); !ok || c != k {
+			return nil
+		}
+		return x.Args[0]
+	}
+	for _, pr := range [][2]*Term{{t.Args[0], t.Args[1]}, {t.Args[1], t.Args[0]}} {
+		hi, lo := strip(pr[0]), pr[1]
+		var tens *Term
+		if sh := divmod(hi, "<<", 4); sh != nil {
+			tens = divmod(sh, "/", 10)
+		} else if mu := divmod(hi, "*", 16); mu != nil {
+			tens = divmod(mu, "/", 10)
+		}
+		ones := divmod(lo, "%", 10)
+		if tens != nil && ones != nil && strip(tens).String() == strip(ones).String() {
+			return strip(tens)
+		}
+	}
+	return nil
+}
+
+// packedCivilLayout: the bytes are the BCD pairs of year/100, year%100, month, day, hour, minute, second of the
+// stored instant v (in a prefix/suffix of that order), with the year known to lie in 0..9999 on this path; or the
+// pairs of decimal fields of v known to lie in 0..99. Returns the time layout ("20060102150405") or the printf
+// format ("%02d%02d") the bytes correspond to, and a remark when something about it is off.
+func packedCivilLayout(els []*Term, pa Path) (string, string) {
+	if len(els) == 0 {
+		return "", ""
+	}
+	within := func(x *Term, lo, hi int64) bool {
+		reg, ok := pa.State.Ints[x.String()]
+		return ok && len(reg) > 0 && reg[0].Lo >= lo && reg[len(reg)-1].Hi <= hi
+	}
+	civil := func(x *Term) string {
+		// Year/Month/Day/Hour/Minute/Second of v, or a component of v.Date() / v.Clock()
+		for x != nil && x.Op == "conv" && len(x.Args) == 1 {
+			x = x.Args[0]
+		}
+		if x == nil {
+			return ""
+		}
+		ofV := func(recv *Term) bool {
+			for recv != nil && recv.Op == "conv" && len(recv.Args) == 1 {
+				recv = recv.Args[0]
+			}
+			return recv != nil && recv.String() == "v"
+		}
+		if x.Op == "call" && len(x.Args) == 1 && ofV(x.Args[0]) {
+			switch x.Name {
+			case "(time.Time).Year":
+				return "year"
+			case "(time.Time).Month":
+				return "01"
+			case "(time.Time).Day":
+				return "02"
+			case "(time.Time).Hour":
+				return "15"
+			case "(time.Time).Minute":
+				return "04"
+			case "(time.Time).Second":
+				return "05"
+			}
+		}
+		if x.Op == "extract" && len(x.Args) == 1 && x.Args[0].Op == "call" && len(x.Args[0].Args) == 1 && ofV(x.Args[0].Args[0]) {
+			switch x.Args[0].Name + "#" + x.Name {
+			case "(time.Time).Date#0":
+				return "year"
+			case "(time.Time).Date#1":
+				return "01"
+			case "(time.Time).Date#2":
+				return "02"
+			case "(time.Time).Clock#0":
+				return "15"
+			case "(time.Time).Clock#1":
+				return "04"
+			case "(time.Time).Clock#2":
+				return "05"
+			}
+		}
+		return ""
+	}
+	lay := ""
+	why := ""
+	fields := 0
+	for _, e := range els {
+		x := bcdPairOf(e)
+		if x == nil {
+			return "", ""
+		}
+		// century and year-in-century
+		if x.Op == "bin" && len(x.Args) == 2 && (x.Name == "/" || x.Name == "%") {
+			if c, ok := x.Args[1].Int64(); ok && c == 100 && civil(x.Args[0]) == "year" {
+				y := x.Args[0]
+				for y.Op == "conv" && len(y.Args) == 1 {
+					y = y.Args[0]
+				}
+				if !within(y, 0, 9999) {
+					why = "the year packed into two BCD bytes is not known to lie in 0..9999 on this path"
+				}
+				if x.Name == "/" {
+					lay += "20"
+				} else {
+					lay += "06"
+				}
+				continue
+			}
+			return "", ""
+		}
+		if tok := civil(x); tok != "" && tok != "year" {
+			lay += tok
+			continue
+		}
+		// a decimal field of the value itself (v.hours): two digits only when it is known to be 0..99
+		if strings.HasPrefix(x.String(), "v.") && !strings.ContainsAny(x.String(), "( ") {
+			if !within(x, 0, 99) {
+				why = "the field " + x.String() + " packed into one BCD byte is not known to lie in 0..99 on this path"
+			}
+			lay += "%02d"
+			fields++
+			continue
+		}
+		return "", ""
+	}
+	if fields > 0 && fields*4 != len(lay) {
+		return "", "" // a mixture of instant fields and value fields
+	}
+	if fields == 0 {
+		if _, ok := layoutDigits(lay); !ok {
+			return "", ""
+		}
+	}
+	return lay, why
 }
 
 // componentOrder: the variadic arguments of a Sprintf over a struct value are its integer fields in declaration order.
